@@ -152,6 +152,10 @@ def r3(ctx: Ctx) -> None:
                 return "neutral" if pos else "skip:halt belongs to another session"
             if op in ("==", "!=", "is", "is not") and "self.halting_time_started" in ks and any(x[0] == "const" for x in (a, b)):
                 return "sentinel"
+            # x = self.halted_sessions.pop(id, S); `x is S`: no halt was recorded for the market
+            for u, v in ((a, b), (b, a)):
+                if op in ("==", "!=", "is", "is not") and u[0] == "call" and u[1][0] == "attr" and u[1][2] in ("pop", "get") and key(u[1][1]) == "self.halted_sessions" and len(u[2]) == 2 and strip_ver(u[2][1]) == v:
+                    return "skip:no halt recorded for the market" if pos else "neutral"
         return "unknown"
 
     full: List[Any] = []  # (conds, events, element, node, exit)
